@@ -1,44 +1,71 @@
-"""Apply a property-breaking patch to /repo, run a check, revert. Usage:
-   /venv/bin/python -m mc.mutate <Cxx> <patch.diff> [--tier quick]   (never leaves /repo modified)"""
+"""Evaluate a check against a property-breaking patch.
+
+   /venv/bin/python -m mc.mutate <Cxx> <patch.diff>... [--tier quick] [--in-repo]
+
+Default: the patch is applied in a scratch git worktree of /repo (under /tmp, removed afterwards) and the check is
+run with PYTHONPATH/FFCX_REPO pointing at it and evidence/replays redirected to a scratch directory, so /repo, /verif/evidence
+and /verif/replays are untouched and several mutants can be evaluated in parallel.
+--in-repo: apply to /repo itself (git apply), run, `git checkout -- .` (the procedure of the brief)."""
 import json
 import os
+import shutil
 import subprocess
 import sys
+import tempfile
 import time
 
 REPO = "/repo"
 VERIF = os.path.dirname(os.path.dirname(os.path.abspath(__file__)))
 
 
-def run(pid, patch, tier="quick", timeout=3600):
-    st = subprocess.run(["git", "-C", REPO, "status", "--porcelain", "--untracked-files=no"], capture_output=True, text=True).stdout
-    if st.strip():
-        raise SystemExit("refusing: /repo has tracked modifications:\n" + st)
-    a = subprocess.run(["git", "-C", REPO, "apply", os.path.abspath(patch)], capture_output=True, text=True)
-    if a.returncode:
-        raise SystemExit("patch does not apply: " + a.stderr)
-    ev = os.path.join(VERIF, "evidence", f"{pid}.json")
-    saved = open(ev).read() if os.path.exists(ev) else None
+def run(pid, patch, tier="quick", timeout=7200, in_repo=False):
+    patch = os.path.abspath(patch)
+    out = tempfile.mkdtemp(prefix=f"mut_{pid}_out_")
+    env = dict(os.environ, VERIF_TIER=tier, VERIF_OUT=out)
     t0 = time.time()
-    try:
-        env = dict(os.environ, VERIF_TIER=tier)
-        r = subprocess.run([os.path.join(VERIF, "check"), pid], capture_output=True, text=True, timeout=timeout, env=env)
-    finally:
-        subprocess.run(["git", "-C", REPO, "checkout", "--", "."], check=True)
-        if saved is not None:
-            open(ev, "w").write(saved)
+    if in_repo:
+        st = subprocess.run(["git", "-C", REPO, "status", "--porcelain", "--untracked-files=no"], capture_output=True, text=True).stdout
+        if st.strip():
+            raise SystemExit("refusing: /repo has tracked modifications:\n" + st)
+        a = subprocess.run(["git", "-C", REPO, "apply", patch], capture_output=True, text=True)
+        if a.returncode:
+            raise SystemExit("patch does not apply: " + a.stderr)
+        try:
+            r = subprocess.run([os.path.join(VERIF, "check"), pid], capture_output=True, text=True, timeout=timeout, env=env)
+        finally:
+            subprocess.run(["git", "-C", REPO, "checkout", "--", "."], check=True)
+    else:
+        wt = tempfile.mkdtemp(prefix=f"mut_{pid}_wt_")
+        os.rmdir(wt)
+        subprocess.run(["git", "-C", REPO, "worktree", "add", "--detach", wt, "HEAD"], capture_output=True, check=True)
+        try:
+            a = subprocess.run(["git", "-C", wt, "apply", patch], capture_output=True, text=True)
+            if a.returncode:
+                a = subprocess.run(["git", "-C", wt, "apply", "--3way", patch], capture_output=True, text=True)
+            if a.returncode:
+                raise SystemExit("patch does not apply: " + a.stderr)
+            env["PYTHONPATH"] = wt
+            env["FFCX_REPO"] = wt
+            r = subprocess.run([os.path.join(VERIF, "check"), pid], capture_output=True, text=True, timeout=timeout, env=env)
+        finally:
+            subprocess.run(["git", "-C", REPO, "worktree", "remove", "--force", wt], capture_output=True)
+            subprocess.run(["git", "-C", REPO, "worktree", "prune"], capture_output=True)
+    shutil.rmtree(out, ignore_errors=True)
     lines = [l for l in r.stdout.splitlines() if l.startswith("VIOLATION") or l.startswith("  key=")]
-    return dict(check=pid, patch=os.path.basename(patch), exit=r.returncode, detected=r.returncode == 1 and any(l.startswith("VIOLATION") for l in lines),
-                wall_s=round(time.time() - t0, 1), lines=lines[:8], tail=r.stdout[-600:] if r.returncode not in (0, 1) else "", err=r.stderr[-600:] if r.returncode not in (0, 1) else "")
+    bad = r.returncode not in (0, 1)
+    return dict(check=pid, patch=os.path.basename(os.path.dirname(patch)) + "/" + os.path.basename(patch), exit=r.returncode,
+                detected=r.returncode == 1 and any(l.startswith("VIOLATION") for l in lines),
+                wall_s=round(time.time() - t0, 1), lines=lines[:8], tail=r.stdout[-800:] if bad else "", err=r.stderr[-800:] if bad else "")
 
 
 if __name__ == "__main__":
     tier = "quick"
-    args = [a for a in sys.argv[1:] if not a.startswith("--")]
-    if "--tier" in sys.argv:
-        tier = sys.argv[sys.argv.index("--tier") + 1]
-        args.remove(tier)
+    argv = sys.argv[1:]
+    in_repo = "--in-repo" in argv
+    if "--tier" in argv:
+        tier = argv[argv.index("--tier") + 1]
+        argv.remove(tier)
+    args = [a for a in argv if not a.startswith("--")]
     pid, patches = args[0], args[1:]
     for p in patches:
-        res = run(pid, p, tier)
-        print(json.dumps(res, indent=1))
+        print(json.dumps(run(pid, p, tier, in_repo=in_repo), indent=1))
